@@ -2,6 +2,7 @@
  *   hdr jws <sig> | hdr jwe <jwe> <rcp|->
  *   sug sign|wrap|encr <jwk>   sug wenc <alg> <jwk>   sug exch <prv> <pub>
  *   sigalg <sig template|-> <jwk>        -> chosen alg, then the signature object's protected/header as left by find_alg+encode
+ *   sigmulti <sig template> <keys>      -> per signature P=.. H=.., then T=<template afterwards>
  *   encalg <jwe> <cek>                    -> jwe after jose_jwe_enc_cek_io() (protected decoded), or ERR
  *   wrapalg <jwe> <rcp|-> <jwk> <cek>     -> recipient header alg and cek alg after jose_jwe_enc_jwk(), or ERR
  *   gen <template>                        -> jose_jwk_gen result or ERR  */
@@ -85,6 +86,40 @@ c_sigalg(void)
     json_decref(jwk);
 }
 
+/* sigmulti <sig template object> <array of keys>: jose_jws_sig() with ONE template applied to several keys.
+ * Prints, per produced signature, the decoded protected header and the unprotected header, then the caller's
+ * template as it is afterwards. */
+static void
+c_sigmulti(void)
+{
+    json_t *sig = jarg(F[1]);
+    json_t *jwk = jarg(F[2]);
+    json_t *jws = json_pack("{s:s}", "payload", "cGF5");
+    if (!jose_jws_sig(NULL, jws, sig, jwk)) {
+        fputs("ERR", stdout);
+    } else {
+        json_t *arr = json_object_get(jws, "signatures");
+        size_t n = arr ? json_array_size(arr) : 1;
+        for (size_t i = 0; i < n; i++) {
+            json_t *s = arr ? json_array_get(arr, i) : jws;
+            json_t *p = json_object_get(s, "protected");
+            json_t *dp = json_is_string(p) ? jose_b64_dec_load(p) : NULL;
+            fputs("P=", stdout);
+            putjson(dp ? dp : json_null());
+            fputs(" H=", stdout);
+            json_t *h = json_object_get(s, "header");
+            if (h) putjson(h); else fputs("-", stdout);
+            fputs("\t", stdout);
+            json_decref(dp);
+        }
+    }
+    fputs("T=", stdout);
+    putjson(sig);
+    json_decref(jws);
+    json_decref(sig);
+    json_decref(jwk);
+}
+
 static void
 c_encalg(void)
 {
@@ -156,6 +191,7 @@ static const cmd_t cmds_hdr[] = {
     { "hdr", c_hdr },
     { "sug", c_sug },
     { "sigalg", c_sigalg },
+    { "sigmulti", c_sigmulti },
     { "encalg", c_encalg },
     { "wrapalg", c_wrapalg },
     { "gen", c_gen },
